@@ -25,7 +25,8 @@ Functions under contract (real text; owners C01 + C17, lists.rs also C08):
                         and [C17:lists-header-size]: the bytes consumed == size_for_encoding(h.encoding) == the standard's
                         header size, the remaining input is exactly the rest of the table [il + 8, il + unit_length)
   common.rs         Format::initial_length_size (== 4 / 12), Format::word_size (== 4 / 8): contracted in core.populate
-                    (exact values); reused here, not re-stated.
+                    (exact values, untagged); reused here, not re-stated; `impl Format` is co-owned by C17 in this batch so
+                    that a wrong value there is reported for C17 too.
 No `DebugAddrBase` default exists in read/addr.rs (Unit::new_with_abbreviations writes `DebugAddrBase(0)`: .debug_addr is
 never in a .dwo); nothing to contract there.
 
@@ -75,6 +76,11 @@ def populate(ctx, sk):
     sk.add('vspec', core.rd('specs/bases.rs'), label='bases_spec')
     if not any(lab == 'derived-eq' for _it, lab, _own in sk.mods['common']['chunks']):
         sk.add('common', DERIVED_EQ, label='derived-eq')
+    # Format::initial_length_size / word_size carry core's exact-value contracts (4/12, 4/8; untagged, owned by C01).  Every
+    # size in this batch rests on them, so C17 co-owns `impl Format` here: a wrong value there is reported for C17 as well.
+    for it, _lab, _own in sk.mods['common']['chunks']:
+        if isinstance(it, Item) and it.header_re == r'^impl Format \{':
+            it.own(sorted(set(it.owners.get('*', [])) | set(OWN)))
 
     # ---- read::lists  (DWARF 5 7.28 / 7.29 table header)
     sk.module('read::lists', 'use crate::common::{Encoding, Format};\nuse crate::read::{Error, Reader, Result};\nuse crate::vspec::*;')
